@@ -1,8 +1,126 @@
-/- PyodaModel.Cache — placeholder until the area is modelled. -/
+/-
+  PyodaModel.Cache — caches and lazily created singletons of pyoda_time as state machines
+  (`init` + `step : State → Op → State × Out`), and the line protocol of the area (driver `drv_cache`).
+
+    Cache/YearCache.lean       1024-slot year-start cache (per calculator) and the global Hebrew cache
+    Cache/ZoneHashCache.lean   512-slot zone-interval cache of `_CachingZoneIntervalMap`
+    Cache/Lru.lean             `_Cache.get_or_add`
+    Cache/Lazy.lean            lazily filled maps, sequential and as atomic actions with/without a lock
+    Cache/Interleave.lean      threads × schedules
+    Cache/YearCacheConc.lean   the year cache as atomic actions
+
+  ops (one history per line):
+    ycache.run <cal-hex> y…            → `slot:validator:H|M` per query (the calendar is ignored: hit/miss does not
+                                          depend on the computed values)
+    hcache.run y…                      → the value `__get_or_populate_cache(y)` returns, from an empty cache
+    zcache.run <b1,b2,…|-> t…          → `start:end:H|M:chainlen` per lookup over the partition at the bounds
+    lru.run <size> k…                  → `H|M|E:count` per call, then ` | ` and the keys in dict order
+    lazy.force <n>                     → n threads doing the first lookup of one key with the lock, round-robin
+    lazy.sched locked|unlocked <n> s…  → each thread's result after the schedule (`-` = not finished)
+    ycache.sched <n> <len> s… | y…     → thread i asks years y[i*len .. (i+1)*len); outputs per thread
+-/
 import PyodaModel.Prelude
+import PyodaModel.Cache.YearCache
+import PyodaModel.Cache.ZoneHashCache
+import PyodaModel.Cache.Lru
+import PyodaModel.Cache.Lazy
+import PyodaModel.Cache.Interleave
+import PyodaModel.Cache.YearCacheConc
 
 namespace Pyoda.Cache
 
-def handle (_toks : List String) : Option String := none
+def showHit (b : Bool) : String := if b then "H" else "M"
+
+def ycacheRun (ys : List Int) : String :=
+  let outs := (YearCache.run (fun y => y * 365) YearCache.init ys).2
+  " ".intercalate ((ys.zip outs).map fun (y, o) =>
+    toString (YearCache.indexOf y) ++ ":" ++ toString (YearCache.validator y) ++ ":" ++ showHit o.hit)
+
+def hcacheRun (ys : List Int) : String :=
+  let outs := (YearCache.Hebrew.run YearCache.Hebrew.elapsedDaysNoCache YearCache.init ys).2
+  " ".intercalate (outs.map fun o => toString o.value)
+
+def parseBounds? (s : String) : Option (List Int) :=
+  if s = "-" then some [] else (s.splitOn ",").mapM parseInt?
+
+def zcacheRun (bounds ts : List Int) : Option String :=
+  match ZoneHashCache.run (ZoneHashCache.realCfg bounds) ZoneHashCache.init ts with
+  | none => none
+  | some (_, outs) =>
+    some (" ".intercalate (outs.map fun o =>
+      toString o.iv.start ++ ":" ++ toString o.iv.stop ++ ":" ++ showHit o.hit ++ ":" ++ toString o.chainLen))
+
+/-- running count after each call (the model keeps the whole state, the reply shows `len(dict)`) -/
+def lruTrace (size : Nat) : Lru.State → List Int → List String × Lru.State
+  | s, [] => ([], s)
+  | s, k :: ks =>
+    let r := Lru.step (fun k => k * 7 + 1) size s k
+    let tag := match r.2.res with
+      | .ok _ => showHit r.2.hit
+      | .error _ => "E"
+    let rest := lruTrace size r.1 ks
+    ((tag ++ ":" ++ toString r.1.dict.length) :: rest.1, rest.2)
+
+def lruRun (size : Nat) (ks : List Int) : String :=
+  let r := lruTrace size Lru.init ks
+  " ".intercalate r.1 ++ " | " ++ " ".intercalate (r.2.dict.map fun p => toString p.1)
+
+def dedup : List Nat → List Nat
+  | [] => []
+  | x :: xs => x :: (dedup xs).filter (· ≠ x)
+
+def lazyForce (n : Nat) : String :=
+  let sys := Lazy.runLocked (Interleave.roundRobin n (8 * n + 8))
+  let objs := (List.range n).filterMap fun i => Lazy.result (sys.threads i)
+  if objs.length = n then
+    "objects=" ++ toString (dedup objs).length ++ " created=" ++ toString sys.shared.next
+  else "unfinished"
+
+def lazySched (locked : Bool) (n : Nat) (sched : List Nat) : String :=
+  let sys := if locked then Lazy.runLocked sched else Lazy.runUnlocked sched
+  " ".intercalate ((List.range n).map fun i =>
+    match Lazy.result (sys.threads i) with
+    | some o => toString o
+    | none => "-") ++ " created=" ++ toString sys.shared.next
+
+def chunk (len : Nat) (l : List Int) (i : Nat) : List Int := (l.drop (i * len)).take len
+
+def ycacheSched (n len : Nat) (sched : List Nat) (ys : List Int) : String :=
+  let sys := YearCacheConc.runSched (fun y => y * 365) (chunk len ys) sched
+  " | ".intercalate ((List.range n).map fun i =>
+    " ".intercalate ((sys.threads i).out.reverse.map fun p => toString p.1 ++ ":" ++ toString p.2))
+
+def splitAtBar (l : List String) : List String × List String :=
+  (l.takeWhile (· ≠ "|"), (l.dropWhile (· ≠ "|")).drop 1)
+
+def parseNats? (l : List String) : Option (List Nat) := l.mapM String.toNat?
+
+def handle (toks : List String) : Option String :=
+  match toks with
+  | "ycache.run" :: _cal :: ys => do let ys ← parseInts? ys; some (ycacheRun ys)
+  | "hcache.run" :: ys => do let ys ← parseInts? ys; some (hcacheRun ys)
+  | "zcache.run" :: b :: ts => do
+      let b ← parseBounds? b
+      let ts ← parseInts? ts
+      zcacheRun b ts
+  | "lru.run" :: size :: ks => do
+      let size ← size.toNat?
+      let ks ← parseInts? ks
+      some (lruRun size ks)
+  | ["lazy.force", n] => do let n ← n.toNat?; some (lazyForce n)
+  | "lazy.sched" :: mode :: n :: sched => do
+      let n ← n.toNat?
+      let sched ← parseNats? sched
+      if mode = "locked" then some (lazySched true n sched)
+      else if mode = "unlocked" then some (lazySched false n sched)
+      else none
+  | "ycache.sched" :: n :: len :: rest => do
+      let n ← n.toNat?
+      let len ← len.toNat?
+      let (a, b) := splitAtBar rest
+      let sched ← parseNats? a
+      let ys ← parseInts? b
+      some (ycacheSched n len sched ys)
+  | _ => none
 
 end Pyoda.Cache
